@@ -1,0 +1,6 @@
+//go:build verif
+
+package trafficrouting
+
+// SetGracePeriodForVerif overrides the package default grace period (seconds).
+func SetGracePeriodForVerif(seconds int32) { defaultGracePeriodSeconds = seconds }
